@@ -414,6 +414,12 @@ class CWorld:
                 if rawjs is None or json.loads(hexbytes(rawjs[1])) != js:
                     raise Violation("C20", "embedded-schema-mismatch", f"[{dv.kind}] stored jsonschema.json of {ep} is not what the container reports")
                 try:
+                    plug = json.loads(self.schemas._get_unsafe(name, ver).schema_json())
+                except Exception:
+                    plug = None
+                if plug is not None and plug != js:
+                    raise Violation("C20", "embedded-schema-not-the-plugins", f"[{dv.kind}] embedded JSON Schema of {ep} differs from the JSON Schema the plugin system exports for that schema version")
+                try:
                     jsonschema.Draft7Validator.check_schema(js)
                     cache[ep] = jsonschema.Draft7Validator(js)
                 except Exception as e:
@@ -552,16 +558,35 @@ class CWorld:
         kwargs = {}
         if op["op"] == "copy" and op.get("without_meta"):
             kwargs["without_meta"] = True
-        okr, excr = T.try_apply(self.ref, op)
+        if op["op"] == "copy" and op.get("bad_kw"):
+            # an option the container's copy does not support: must be refused without effect
+            kwargs[op["bad_kw"]] = True
+            before = [V.dump_tree(dv.raw)[0] for dv in self.drv]
+
+            def fnb(dv):
+                g = dv.mc[op["base"]]
+                g.copy(op["src"], op["dst"], **kwargs)
+
+            res = self.all_apply(fnb)
+            self.probe("copy_with_unsupported_option")
+            for dv, r, b in zip(self.drv, res, before):
+                after = V.dump_tree(dv.raw)[0]
+                if r[0]:
+                    raise Violation("C09", "unsupported-option-accepted", f"[{dv.kind}] copy(..., {op['bad_kw']}=True) was accepted")
+                if after != b:
+                    raise Violation("C06", "refused-op-had-effect", f"[{dv.kind}] copy(..., {op['bad_kw']}=True) was refused but changed the container: {V.diff_dumps(b, after)}", shape="copy-option")
+            return "refused"
+        okr, excr = T.try_apply(self.ref, dict(op, srcobj=False))
 
         def fn(dv):
             _steps["n"] = 0
-            if kwargs:
+            if kwargs or op.get("srcobj"):
                 g = dv.mc[op["base"]]
+                src = g[op["src"]] if op.get("srcobj") else op["src"]
                 if op.get("how") == "group":
-                    g.copy(op["src"], dv.mc[op["dst"]], **kwargs)
+                    g.copy(src, dv.mc[op["dst"]], **kwargs)
                 else:
-                    g.copy(op["src"], op["dst"], **kwargs)
+                    g.copy(src, op["dst"], **kwargs)
             else:
                 T.apply_data_op(dv.mc, op)
 
@@ -1002,7 +1027,12 @@ class ContainerEngine:
                             op["dst"] = "/" + dgen.key() + "_cp"
                 if op["op"] == "copy" and g.random() < 0.3:
                     op["without_meta"] = True
-                sh.apply(op)
+                if op["op"] == "copy" and g.random() < 0.06 and op.get("how") != "group":
+                    op["bad_kw"] = g.choice(["shallow", "expand_refs", "recursive"])
+                elif op["op"] == "copy" and g.random() < 0.15:
+                    op["srcobj"] = True
+                if not op.get("bad_kw"):
+                    sh.apply(op)
                 if op["op"] == "del":
                     ms.drop(T.Shadow.join(op["base"], op["path"]))
                 ops.append(op)
@@ -1022,6 +1052,13 @@ class ContainerEngine:
                     vv = [v for (nn, v) in VS.ATTACHABLE if nn == n]
                     if vv:
                         op.update(path=p, schema=n, version=list(g.choice(vv)))
+                elif roll < 0.40 and ms.pairs():
+                    # a parent or child schema of something the node already carries
+                    p, n = g.choice(ms.pairs())
+                    rel = VS.RELATED.get(n)
+                    if rel:
+                        nn, vv = g.choice(rel)
+                        op.update(path=p, schema=nn, version=list(vv))
                 if len(ms.pairs()) >= 12 and "bad" not in op:
                     continue
                 if "bad" not in op and op["schema"] not in ("verif.aux", "verif.ghost") and op["path"] in sh.nodes:
@@ -1283,6 +1320,9 @@ def op_reserved(w, op):
         if not is_reserved(rp):
             raise env.HarnessError(rp)
         g = dv.mc if (base == "/" and op.get("on_container")) else dv.mc[base]
+        if op.get("via_local") and not rp.startswith("/"):
+            g = dv.mc[base].restrict(local_only=True)
+            w.probe("reserved_probe_via_local_only")
         result = None
         try:
             if method == "__getitem__":
@@ -1353,7 +1393,7 @@ def op_reserved(w, op):
 
 
 def gen_reserved(g, sh, ms):
-    return {"op": "reserved", "method": g.choice(RESERVED_METHODS), "variant": g.choice(RESERVED_VARIANTS), "base": g.choice(sh.groups()), "on_container": g.random() < 0.5}
+    return {"op": "reserved", "method": g.choice(RESERVED_METHODS), "variant": g.choice(RESERVED_VARIANTS), "base": g.choice(sh.groups()), "on_container": g.random() < 0.4, "via_local": g.random() < 0.25}
 
 
 # ====================================================================== restricted actors (C15)
@@ -1530,7 +1570,7 @@ def _handle(w, dv, op):
     hs = a["handles"].get(dv.kind, [])
     if not hs:
         return None
-    h = hs[int(op["h"]) % len(hs)]
+    h = hs[-1] if int(op["h"]) < 0 else hs[int(op["h"]) % len(hs)]
     return h
 
 
@@ -1588,7 +1628,8 @@ def op_nav(w, op):
                 res = node[sorted(node.keys())[0]] if hasattr(node, "keys") and sorted(node.keys()) else None
                 if res is not None:
                     res = res.restrict(**{f: True for f in fl})
-                    if "local_only" in fl and root is None:
+                    if "local_only" in fl:
+                        # explicitly restricted: the node becomes its own local root
                         root = res.name
                         root_obj = res
             elif prim == "restrict_self":
@@ -1596,9 +1637,10 @@ def op_nav(w, op):
                 fl = FLAG_SETS[arg % len(FLAG_SETS)]
                 node.restrict(**{f: True for f in fl})
                 h["flags"] = flags_of(node)
-                if "local_only" in fl and h["root"] is None:
+                if "local_only" in fl:
                     h["root"] = node.name
                     h["root_obj"] = node
+                closure_check(w, dv, h, content_tokens(w))
                 res = None
             elif prim == "root_abs":
                 res = node["/"]
@@ -1622,7 +1664,10 @@ def op_nav(w, op):
             raise Violation("C15", "restriction-dropped", f"[{dv.kind}] node {res.name} obtained via {prim} from {node.name} has flags {sorted(got)}, source had {sorted(src_flags)}", shape=prim)
         if root is not None and not within(root, res.name):
             raise Violation("C15", "local-escape", f"[{dv.kind}] {prim} from local_only node (local root {root}) yielded {res.name}", shape=prim)
-        a["handles"][dv.kind].append({"node": res, "flags": got, "root": root, "root_obj": root_obj, "path": res.name})
+        nh = {"node": res, "flags": got, "root": root, "root_obj": root_obj, "path": res.name}
+        a["handles"][dv.kind].append(nh)
+        if prim == "restrict":
+            closure_check(w, dv, nh, content_tokens(w))
     # keep handle lists bounded
     a = w.actors.get(op["actor"])
     if a:
@@ -1897,8 +1942,17 @@ class ActorGen:
         g = self.g
         actor = g.choice(["A", "B"])
         roll = g.random()
+        plan = getattr(self, "plan", [])
+        if plan:
+            return plan.pop(0)
         if self.n[actor] == 0 or roll < 0.15:
             self.n[actor] += 1
+            # follow a grant with the classic misuse patterns: restrict a child / the node
+            # itself further, then look around and try everything once
+            self.plan = []
+            if g.random() < 0.6:
+                self.plan.append({"op": "nav", "actor": actor, "h": -1, "prim": g.choice(["restrict", "restrict_self", "getitem", "visititems"]), "arg": g.randrange(50)})
+                self.plan.append({"op": "attempt", "actor": actor, "h": -1, "kind": g.choice(["closure", "sweep_M", "sweep_R", "sweep_U"]), "arg": g.randrange(50)})
             p = g.choice(sh.all()) if g.random() < 0.8 else "/"
             return {"op": "grant", "actor": actor, "path": p, "flags": g.choice(FLAG_SETS + [[]]), "container": g.random() < 0.5}
         if roll < 0.5:
